@@ -5,6 +5,9 @@
 //	field - a field selection x.f used as a call argument or comparison operand is replaced by a sibling
 //	        field x.g of identical type
 //	copy  - x.DeepCopy() is replaced by x
+//	meth  - a called method x.M(…) is replaced by another method of x with an identical signature, a called
+//	        package function pkg.F(…) by another exported function of pkg with an identical signature
+//	        (the two alternatives whose names share the longest prefix with M / F)
 //	retv  - an identifier that is returned is replaced by another variable of identical type in scope
 //	asg   - an identifier on the right-hand side of an assignment / definition is replaced likewise
 //
@@ -174,6 +177,71 @@ func mutateFile(pkg *packages.Package, f *ast.File, out, rel string) {
 				}
 				for _, a := range x.Args {
 					operand(a, fname, x)
+				}
+				// sibling method / function with an identical signature
+				if se, isSel := x.Fun.(*ast.SelectorExpr); isSel {
+					if fo, isF := info.Uses[se.Sel].(*types.Func); isF {
+						sig := fo.Type().(*types.Signature)
+						plain := types.NewSignatureType(nil, nil, nil, sig.Params(), sig.Results(), sig.Variadic())
+						var cands []string
+						if sig.Recv() != nil {
+							if tv := info.TypeOf(se.X); tv != nil {
+								ms := types.NewMethodSet(tv)
+								if _, isP := tv.(*types.Pointer); !isP {
+									if _, isI := tv.Underlying().(*types.Interface); !isI {
+										ms = types.NewMethodSet(types.NewPointer(tv))
+									}
+								}
+								for i := 0; i < ms.Len(); i++ {
+									m, ok := ms.At(i).Obj().(*types.Func)
+									if !ok || m.Name() == fo.Name() || (!m.Exported() && m.Pkg() != pkg.Types) {
+										continue
+									}
+									ms2 := m.Type().(*types.Signature)
+									if types.Identical(types.NewSignatureType(nil, nil, nil, ms2.Params(), ms2.Results(), ms2.Variadic()), plain) {
+										cands = append(cands, m.Name())
+									}
+								}
+							}
+						} else if fo.Pkg() != nil && fo.Pkg() != pkg.Types {
+							sc := fo.Pkg().Scope()
+							for _, n := range sc.Names() {
+								m, ok := sc.Lookup(n).(*types.Func)
+								if !ok || !m.Exported() || m.Name() == fo.Name() {
+									continue
+								}
+								if types.Identical(m.Type(), fo.Type()) {
+									cands = append(cands, m.Name())
+								}
+							}
+						}
+						cpl := func(a, b string) int {
+							n := 0
+							for n < len(a) && n < len(b) && a[n] == b[n] {
+								n++
+							}
+							return n
+						}
+						sort.Slice(cands, func(i, j int) bool {
+							ci, cj := cpl(cands[i], fo.Name()), cpl(cands[j], fo.Name())
+							if ci != cj {
+								return ci > cj
+							}
+							return cands[i] < cands[j]
+						})
+						if len(cands) > 2 {
+							cands = cands[:2]
+						}
+						ln := fset.Position(x.Pos()).Line
+						for _, c := range cands {
+							c := c
+							sites = append(sites, site{"meth", fname, fmt.Sprintf("%s → %s in: %s", se.Sel.Name, c, snippet(x)), ln, func() func() {
+								old := se.Sel.Name
+								se.Sel.Name = c
+								return func() { se.Sel.Name = old }
+							}})
+						}
+					}
 				}
 				// x.DeepCopy() → x
 				if se, isSel := x.Fun.(*ast.SelectorExpr); isSel && se.Sel.Name == "DeepCopy" && len(x.Args) == 0 && len(stack) >= 2 {
